@@ -269,3 +269,43 @@ CHECKS["C17"] = dict(
     level_text="exploration with an exhaustive core: all call sequences up to length 2/3 over the relative-size alphabet on every reader and writer kind and every source length / capacity in the grid; longer sequences and compile-time values are sampled.",
     level_note="equivalence is required up to and including the first failing call, as the property states; the unchecked BufferWriter is only driven within its capacity",
     assumptions=[], exhaustive_counter="c17_reader_calls")
+
+
+# ------------------------------------------------------------------ table engine (C07, C08)
+def gen_table(prop, tier, seed):
+    import tablegen
+    s = seed if tier == "thorough" else 0
+    d = os.path.join(BUILD, "gen", "table-%s-%d" % (tier, s))
+    srcs = tablegen.generate(d, s, 8 if tier == "thorough" else 3, 24 if tier == "thorough" else 10)
+    return d, srcs
+
+
+ENGINE_KIND["table"] = ("C++ harness (ASan+UBSan): generated table version pools (evolution histories), every ordered version pair executed at run time through type-erased "
+                        "read/write, 30-line projection model, structural table mutations judged by the reference decoder")
+_table = dict(engine="table", flavour="asan", gen=gen_table, sources=["engines/table/main.cpp"], flags=["-DVF_OPS_FEW"], programs_counter="programs_version_types")
+
+CHECKS["C07"] = dict(
+    _table, level="exploration",
+    rule=("program = a table version produced by a seeded walk of allowed evolution steps (add entry, remove entry, mark deleted, reorder, swap to a documented-fungible alternative type; ids never reused) over pools of 4-6 "
+          "entries (quick: 3 pools x 10 versions, thorough: 8 pools x 24 versions per seed), each emitted in four contexts: top level, inside a structure followed by more data, inside a vector, inside an entry of another table. "
+          "case = (writer version, reader version, context, assignment of empty/non-empty to the writer's entries, values fitting every fungible alternative): all ordered pairs of versions of a pool are executed; low case "
+          "indices sweep the assignments in order. Oracle = projection model (entry active and non-empty in the writer and active in the reader carries its value tree; everything else empty) on 6 readers incl. a non-seekable "
+          "stream and BoundedReader; reader position = end of the encoding; a trailing sentinel reads back; half of the reads go into an object already holding other entries. distinct = hash(pair, bytes, context)."),
+    floor={"quick": 2000, "thorough": 50000}, require_counters=["c07_cross_version_reads", "c07_cases_between_different_versions", "c07_context_table{Entry<table>;u16}", "c07_context_vector<table>"],
+    technique="generated schema-evolution histories executed pairwise at run time against a projection model, under ASan/UBSan",
+    level_text="exploration over generated programs: every ordered pair of versions of every generated pool is executed with swept empty/non-empty assignments and sampled values, each read decided exactly by the projection model.",
+    level_note="pool sizes, history lengths and nesting contexts are bounded; values are generated on the most constrained fungible alternative so they fit both sides",
+    assumptions=[])
+
+CHECKS["C08"] = dict(
+    _table, level="exploration",
+    rule=("case = (table version type incl. the four nesting contexts, encoded table, structural mutation): entries permuted (24 random permutations), each entry duplicated at each position (count adjusted), an unknown id "
+          "inserted twice, hash changed (same length / high bit), each declared size shrunk by 1, 2, half, grown by 1, 2, 255, 256 with matching padding and by 1, 2 without, entry count +-1, bytes inside entry values "
+          "corrupted; read by the same and by other versions (unknown / deleted ids). Length-changing mutations are applied to tables not enclosed in another entry frame; nested tables get the length-preserving ones. "
+          "Oracle = reference decoder implementing the framing rules of docs/format.md (any order, known active id at most once, size = value + padding, errors inside an entry fail the read): accept/reject, decoded "
+          "entries, reader position; category compared for InvalidTableHash and DuplicateTableEntry. 6 readers incl. non-seekable stream and BoundedReader."),
+    floor={"quick": 5000, "thorough": 100000}, require_counters=["c08_framing_reads", "c08_reference_accepts", "c08_reference_rejects", "c08_refcat_DuplicateTableEntry", "c08_refcat_InvalidTableHash", "c08_refcat_Truncated", "c08_categories_compared"],
+    technique="structural table mutations judged by an independent reference decoder (differential), under ASan/UBSan",
+    level_text="exploration: for every generated version type the catalogue of framing mutations is applied exhaustively per encoded table (all duplicate positions, all entries, all size deltas) and each mutated table is decided exactly by the reference decoder.",
+    level_note="trusts ref/refcodec.h for the framing rules; nested tables only receive length-preserving mutations",
+    assumptions=[])
